@@ -127,6 +127,34 @@ pub fn run(ctx: &Ctx) {
     if let Some(v) = replay_input(ctx) {
         let text = v["text"].as_str().unwrap_or("").to_string();
         let d = v["dialect"].as_u64().unwrap_or(0) as usize;
+        if let Some(uw) = v.get("merged_user_words").and_then(|a| a.as_array()) {
+            use harper_core::{MergedDictionary, MutableDictionary, WordMetadata};
+            use std::sync::Arc;
+            let mut user = MutableDictionary::new();
+            for w in uw.iter().filter_map(|w| w.as_str()) {
+                user.append_word_str(w, WordMetadata::default());
+            }
+            let mut merged = MergedDictionary::new();
+            merged.add_dictionary(FstDictionary::curated());
+            merged.add_dictionary(Arc::new(user));
+            let merged = Arc::new(merged);
+            let mut lg = LintGroup::new_curated(merged.clone(), Dialect::American);
+            lg.config.clear();
+            lg.set_all_rules_to(Some(false));
+            lg.config.set_rule_enabled("SpellCheck", true);
+            let flagged = guarded(|| {
+                let doc = Document::new(&text, &PlainEnglish, &*merged);
+                lg.lint(&doc).into_iter().any(|l| l.lint_kind == LintKind::Spelling)
+            });
+            if flagged != Ok(false) {
+                sess.fail("listed-word-flagged", format!("still fails: {}", v), v.clone(), None);
+            }
+            sess.o();
+            sess.nontrivial("replay-a");
+            sess.nontrivial("replay-b");
+            sess.finish("replay of one recorded merged-dictionary input", false, json!({}));
+            return;
+        }
         let mut lg = only_spellcheck(DIALECTS[d]);
         if let Ok((doc, lints)) = spelling_lints(&mut lg, &text) {
             sess.sample(json!({"text": text, "tokens": crate::tokfmt::toks_show(doc.get_tokens()), "spelling_lints": lints.iter().map(|l| (l.span.start, l.span.end)).collect::<Vec<_>>()}));
@@ -327,8 +355,81 @@ pub fn run(ctx: &Ctx) {
             }
         }
     }
+    // ---- the ACTIVE dictionary of every front-end is a merged one: curated first, then the user's
+    //      (harper-ls, harper-cli, harper-wasm all build `MergedDictionary[curated, user, …]`). Words
+    //      the user lists must be accepted in their listed capitalisation — also when the curated
+    //      dictionary lists the same letters in another case (`markdown` next to `Markdown`).
+    {
+        use harper_core::{MergedDictionary, MutableDictionary, WordMetadata};
+        use std::sync::Arc;
+        let mut user_words: Vec<String> = vec!["markdown".into(), "github".into(), "javascript".into(), "Zqxvword".into(), "zqxvlower".into(), "naïvetéx".into()];
+        // case variants of curated entries: lower-cased proper nouns, capitalised / upper-cased common words
+        let nvar = if ctx.tier == Tier::Thorough { 1500 } else { 200 };
+        let mut seen = 0;
+        for (i, w) in words.all.iter().enumerate() {
+            if (i + ctx.seed as usize) % 97 != 0 || unlexable_shape(w) || w.len() < 3 {
+                continue;
+            }
+            let ws: String = w.iter().collect();
+            if ws.chars().any(|c| c.is_uppercase()) {
+                user_words.push(ws.to_lowercase());
+            } else {
+                user_words.push(ws.to_uppercase());
+                let mut c = ws.chars();
+                if let Some(f) = c.next() {
+                    user_words.push(format!("{}{}x", f.to_uppercase(), c.as_str())); // a NEW word next to it
+                }
+            }
+            seen += 1;
+            if seen >= nvar {
+                break;
+            }
+        }
+        user_words.sort();
+        user_words.dedup();
+        let mut user = MutableDictionary::new();
+        for w in &user_words {
+            user.append_word_str(w, WordMetadata::default());
+        }
+        let mut merged = MergedDictionary::new();
+        merged.add_dictionary(FstDictionary::curated());
+        merged.add_dictionary(Arc::new(user));
+        let merged = Arc::new(merged);
+        let mut lg = LintGroup::new_curated(merged.clone(), Dialect::American);
+        lg.config.clear();
+        lg.set_all_rules_to(Some(false));
+        lg.config.set_rule_enabled("SpellCheck", true);
+        sess.monitor("the merged dictionary lists every user word in its listed capitalisation (words_iter)", user_words.iter().all(|w| merged.words_iter().any(|x| x.iter().copied().eq(w.chars()))));
+        for w in &user_words {
+            for text in [w.clone(), format!("We saw {} today.", w)] {
+                sess.o();
+                let at = if text.len() == w.len() { 0 } else { 7 };
+                let wl = w.chars().count();
+                let r = guarded(|| {
+                    let doc = Document::new(&text, &PlainEnglish, &*merged);
+                    let l: Vec<Lint> = lg.lint(&doc).into_iter().filter(|l| l.lint_kind == LintKind::Spelling).collect();
+                    let single = doc.get_tokens().iter().any(|t| matches!(t.kind, TokenKind::Word(_)) && t.span.start == at && t.span.end == at + wl);
+                    (l, single)
+                });
+                let Ok((lints, single)) = r else {
+                    sess.fail("panic", "lint panicked".into(), json!({"text": text, "merged_user_words": [w]}), None);
+                    continue;
+                };
+                if !single {
+                    sess.count("merged:not-one-word-token");
+                    continue;
+                }
+                sess.count("merged:user-word");
+                if lints.iter().any(|l| l.span.start < at + wl && at < l.span.end) {
+                    sess.fail("listed-word-flagged", format!("{:?} is listed by the user dictionary of the merged (active) dictionary in exactly this capitalisation but is reported", w), json!({"text": text, "merged_user_words": [w], "dialect": 0}), None);
+                } else {
+                    sess.nontrivial(&format!("merged:{}", w));
+                }
+            }
+        }
+    }
     sess.finish(
-        "O: every listed word of the curated dictionary (quick: every 3rd, offset by seed; thorough: all) × dialects (quick: American, British; thorough: all 4), alone and embedded in `We saw _ today.`, in its listed form and — for lower-case entries — capitalised and upper-case: must not be reported when the dialect admits it, must be reported when it is listed for another dialect only; non-words (edited / re-cased dictionary words, random letter strings; ground truth from an index keyed by to_lower∘normalized, independent of WordId) must be reported with a span covering exactly the word; every suggestion must be a word of the active dialect up to its first letter's case. K: accept / contains_word / contains_exact_word vs the Lean model on a sample of those words, the model being given the matching slice of the real word list plus decoys. Non-trivial = distinct (dialect, word) K cases and distinct non-words.",
+        "O: every listed word of the curated dictionary (quick: every 3rd, offset by seed; thorough: all) × dialects (quick: American, British; thorough: all 4), alone and embedded in `We saw _ today.`, in its listed form and — for lower-case entries — capitalised and upper-case: must not be reported when the dialect admits it, must be reported when it is listed for another dialect only; non-words (edited / re-cased dictionary words, random letter strings; ground truth from an index keyed by to_lower∘normalized, independent of WordId) must be reported with a span covering exactly the word; every suggestion must be a word of the active dialect up to its first letter's case; the same through a MERGED dictionary (curated + a user dictionary holding case variants of curated entries and new words): every user word is accepted in its listed capitalisation. K: accept / contains_word / contains_exact_word vs the Lean model on a sample of those words, the model being given the matching slice of the real word list plus decoys. Non-trivial = distinct (dialect, word) K cases and distinct non-words.",
         ctx.tier == Tier::Thorough,
         json!({"exhaustive_scope": if ctx.tier == Tier::Thorough { "all dictionary words × 4 dialects × {listed, Capitalised, UPPER} × {alone, embedded}" } else { "one third of the dictionary × 2 dialects" }}),
     );
